@@ -1,4 +1,7 @@
-// vinstr: build-time schedule-point injector (prototype).
+// vinstr: build-time schedule-point injector.
+// usage: vinstr <repo> <outdir>
+// Instruments every non-test Go file of the root package and of mux/ that is built on this
+// platform (without the race tag), writes the copies and overlay.instr.json + points.json to <outdir>.
 // Reads Go files, inserts calls to the verifsched runtime before statements that
 // contain synchronisation / blocking / syscall operations, by pure text insertion
 // (original bytes and line numbers are preserved).
@@ -8,6 +11,7 @@ import (
 	"encoding/json"
 	"fmt"
 	"go/ast"
+	"go/build"
 	"go/parser"
 	"go/token"
 	"os"
@@ -35,23 +39,49 @@ type insertion struct {
 var points []point
 
 func main() {
+	if len(os.Args) != 3 {
+		fmt.Fprintln(os.Stderr, "usage: vinstr <repo> <outdir>")
+		os.Exit(2)
+	}
 	repo, out := os.Args[1], os.Args[2]
 	overlay := map[string]string{}
-	for _, rel := range os.Args[3:] {
-		src := filepath.Join(repo, rel)
-		data, err := os.ReadFile(src)
+	bctx := build.Default
+	for _, dir := range []string{".", "mux"} {
+		ents, err := os.ReadDir(filepath.Join(repo, dir))
 		if err != nil {
-			panic(err)
+			fmt.Fprintln(os.Stderr, "vinstr:", err)
+			os.Exit(2)
 		}
-		res, n := instrument(rel, data)
-		if n == 0 {
-			continue
+		for _, e := range ents {
+			name := e.Name()
+			if e.IsDir() || !strings.HasSuffix(name, ".go") || strings.HasSuffix(name, "_test.go") {
+				continue
+			}
+			if ok, err := bctx.MatchFile(filepath.Join(repo, dir), name); err != nil || !ok {
+				continue
+			}
+			rel := filepath.Join(dir, name)
+			src := filepath.Join(repo, rel)
+			data, err := os.ReadFile(src)
+			if err != nil {
+				fmt.Fprintln(os.Stderr, "vinstr:", err)
+				os.Exit(2)
+			}
+			res, n, err := instrument(rel, data)
+			if err != nil {
+				fmt.Fprintln(os.Stderr, "vinstr: cannot parse", rel, err)
+				os.Exit(2)
+			}
+			if n == 0 {
+				continue
+			}
+			dst := filepath.Join(out, strings.ReplaceAll(rel, "/", "__"))
+			if err := os.WriteFile(dst, res, 0o644); err != nil {
+				fmt.Fprintln(os.Stderr, "vinstr:", err)
+				os.Exit(2)
+			}
+			overlay[src] = dst
 		}
-		dst := filepath.Join(out, strings.ReplaceAll(rel, "/", "__"))
-		if err := os.WriteFile(dst, res, 0o644); err != nil {
-			panic(err)
-		}
-		overlay[src] = dst
 	}
 	pj, _ := json.MarshalIndent(points, "", " ")
 	os.WriteFile(filepath.Join(out, "points.json"), pj, 0o644)
@@ -82,11 +112,11 @@ func (c *ctx) add(at token.Pos, kind string, stmt ast.Node, call string) {
 	c.ins = append(c.ins, insertion{off: c.fset.Position(at).Offset, text: fmt.Sprintf(call, id), seq: len(c.ins)})
 }
 
-func instrument(rel string, data []byte) ([]byte, int) {
+func instrument(rel string, data []byte) ([]byte, int, error) {
 	fset := token.NewFileSet()
 	f, err := parser.ParseFile(fset, rel, data, parser.ParseComments)
 	if err != nil {
-		panic(err)
+		return nil, 0, err
 	}
 	c := &ctx{fset: fset, src: data, rel: rel}
 	ast.Inspect(f, func(n ast.Node) bool {
@@ -101,7 +131,7 @@ func instrument(rel string, data []byte) ([]byte, int) {
 		return true
 	})
 	if len(c.ins) == 0 {
-		return nil, 0
+		return nil, 0, nil
 	}
 	// import right after the package clause, on the same line
 	c.ins = append(c.ins, insertion{off: fset.Position(f.Name.End()).Offset, text: "; import " + schedImport, seq: -1})
@@ -115,7 +145,7 @@ func instrument(rel string, data []byte) ([]byte, int) {
 	for _, in := range c.ins {
 		res = append(res[:in.off], append([]byte(in.text), res[in.off:]...)...)
 	}
-	return res, len(c.ins) - 1
+	return res, len(c.ins) - 1, nil
 }
 
 // list instruments the direct elements of one statement list.
@@ -166,6 +196,9 @@ func (c *ctx) stmt(at token.Pos, st ast.Stmt) {
 	case *ast.DeferStmt:
 		return
 	case *ast.ForStmt:
+		if s.Init != nil && hasSync(s.Init) != "" {
+			c.add(at, "forinit", st, "vs.Point(%d); ")
+		}
 		if s.Cond != nil && hasSync(s.Cond) != "" {
 			c.add(s.Body.Lbrace+1, "loop", st, " vs.Point(%d); ")
 		}
@@ -192,6 +225,12 @@ func (c *ctx) stmt(at token.Pos, st ast.Stmt) {
 	}
 	if _, ok := st.(*ast.SendStmt); ok {
 		c.add(at, "send", st, "vs.Point(%d); ")
+		return
+	}
+	if fc := findFileClose(st); fc != nil {
+		// listener.Close: ln.file.Close() closes the descriptor number kept in ln.fd
+		owner := c.text(fc.Fun.(*ast.SelectorExpr).X.(*ast.SelectorExpr).X)
+		c.add(at, "closefile", st, "vs.CloseFD(%d, "+owner+".fd); ")
 		return
 	}
 	switch k := hasSync(st); k {
@@ -279,6 +318,26 @@ func findCall(n ast.Node, sel string) (r *ast.CallExpr) {
 		}
 		if c, ok := m.(*ast.CallExpr); ok && r == nil && calleeName(c) == sel {
 			r = c
+		}
+		return r == nil
+	})
+	return
+}
+
+// findFileClose finds a call of the form X.file.Close().
+func findFileClose(n ast.Node) (r *ast.CallExpr) {
+	ast.Inspect(n, func(m ast.Node) bool {
+		if _, ok := m.(*ast.FuncLit); ok {
+			return false
+		}
+		c, ok := m.(*ast.CallExpr)
+		if !ok || r != nil {
+			return r == nil
+		}
+		if sel, ok := c.Fun.(*ast.SelectorExpr); ok && sel.Sel.Name == "Close" && len(c.Args) == 0 {
+			if inner, ok := sel.X.(*ast.SelectorExpr); ok && inner.Sel.Name == "file" {
+				r = c
+			}
 		}
 		return r == nil
 	})
